@@ -213,7 +213,7 @@ pub fn inflate(data: &[u8], zlib: bool) -> Result<Decoded, Error> {
                     for (i, x) in l.iter_mut().enumerate() {
                         *x = if i < 144 { 8 } else if i < 256 { 9 } else if i < 280 { 7 } else { 8 };
                     }
-                    (Code::new(&l, false)?, Code::new(&[5u8; 30], true)?)
+                    (Code::new(&l, false)?, Code::new(&[5u8; 32], false)?)
                 } else {
                     let hlit = b.bits(5)? as usize + 257;
                     let hdist = b.bits(5)? as usize + 1;
